@@ -32,7 +32,8 @@ def meta(tier, seed):
                   "for an arm without data; row seed replicated for randomised policies",
         "bounds": {"rows": "n <= %d over %r%s" % (4 if tier == "quick" else 5, P5, " (n = 4: at most two training calls, no remove variant)" if tier == "quick" else ""), "cluster_settings": [c[0] for c in CLU],
                    "tree_parameters": [t[1] for t in TREES], "variants": ["plain", "add_arm(3) after the first call",
-                                                                          "remove_arm(2) after the first call"],
+                                                                          "remove_arm(2) after the first call",
+                                                                          "query, then fit again on arm 1's rows only"],
                    "policies": {"clusters": ["eg0", "ucb", "lucb"] + ([] if tier == "quick" else ["ts", "sm"]),
                                 "tree": ["eg0", "ucb"] + ([] if tier == "quick" else ["ts"])}},
         "assumptions": ["scikit-learn is trusted for cell membership (labels_, predict, apply)",
@@ -105,6 +106,12 @@ def build_history(pts, variant, comp, ln):
         if ci == 0 and variant == "remove":
             oplist.append(["remove_arm", 2])
             arms = [1]
+    if variant == "requery":
+        # the bandit answers a query, then is fit again on arm 1's rows only: arm 2 has no observations any more
+        kept = [r for r in rows if r[0] == 1]
+        oplist.append(["predict_expectations", [list(p) for p in QGRID]])
+        oplist.append(["fit", [r[0] for r in kept], [r[2] for r in kept], [list(r[1]) for r in kept]])
+        rows = kept
     return oplist, rows, arms
 
 
@@ -219,8 +226,10 @@ def run_shard(shard):
             for comp in A.compositions(n):
                 if shard.get("quick") and n == 4 and len(comp) > 2:
                     continue            # quick tier: the longest tuples with at most two training calls
-                for variant in ("plain", "add", "remove"):
-                    if variant != "plain" and len(comp) < 2:
+                for variant in ("plain", "add", "remove", "requery"):
+                    if variant in ("add", "remove") and len(comp) < 2:
+                        continue
+                    if variant == "requery" and (len(comp) > 1 or n < 3):
                         continue
                     if shard.get("quick") and n == 4 and variant == "remove":
                         continue
